@@ -423,6 +423,20 @@ fn run_oom(args: &[&str]) -> String {
     let os: OrderedSet<S> = src.iter().copied().filter(|_| true).collect();
     let os2: OrderedSet<S> = src.iter().copied().collect();
     let os3: OrderedSet<S> = Hint(src.clone().into_iter(), (0, Some(1))).collect();
+    // iterators without an upper bound (str::split, flatten, from_fn, …) or with a huge one (take_while over a large range);
+    // every hint is a TRUE bound of the iterator
+    for h in [(0, None), (src.len(), None), (0, Some(src.len())), (0, Some(usize::MAX)), (src.len(), Some(usize::MAX / 2)), (0, Some(src.len() + 1))] {
+      let osh: OrderedSet<S> = Hint(src.clone().into_iter(), h).collect();
+      if osh != os2 && fail.is_none() {
+        fail = Some(format!("duplicate-key:OrderedSet::from_iter with size hint {:?} gives {} elements of {}", h, osh.len(), sl(&src)));
+      }
+    }
+    let flat: OrderedSet<S> = vec![src.clone()].into_iter().flatten().collect();
+    let mut it = src.clone().into_iter();
+    let from_fn: OrderedSet<S> = std::iter::from_fn(move || it.next()).collect();
+    if (flat != os2 || from_fn != os2) && fail.is_none() {
+      fail = Some("duplicate-key:OrderedSet::from_iter of an unbounded iterator differs from that of a Vec".into());
+    }
     if (os != os2 || os != os3) && fail.is_none() {
       fail = Some("duplicate-key:OrderedSet::from_iter depends on the iterator's size hint".into());
     }
@@ -451,11 +465,37 @@ fn run_oom(args: &[&str]) -> String {
   };
   chk(&r);
   let mut out = vec![show_oom(&r)];
+  // the same value reached through other allocation states (an empty `Many` whose vector has spare capacity, one that was
+  // filled and cleared, a deserialised one): every push must lead them through the same values
+  let mut alts: Vec<(&str, OneOrMany<S>)> = vec![];
+  if r.is_empty() {
+    alts.push(("with_capacity", OneOrMany::from(Vec::<S>::with_capacity(8))));
+    let mut v = vec![S { key: 1, val: 1 }, S { key: 2, val: 2 }];
+    v.clear();
+    alts.push(("cleared", OneOrMany::Many(v)));
+  } else {
+    let mut v = Vec::with_capacity(r.len() + 7);
+    v.extend_from_slice(r.as_slice());
+    alts.push(("with_capacity", OneOrMany::from(v)));
+  }
+  if let Ok(b) = serde_json::from_str::<OneOrMany<S>>(&serde_json::to_string(&r).unwrap()) {
+    alts.push(("deserialised", b));
+  }
+  let mut alt_fail: Option<String> = None;
   for op in ops {
     let Some(e) = pe(op) else { return "bad-request".into() };
     r.push(e);
     chk(&r);
+    for (name, a) in alts.iter_mut() {
+      a.push(e);
+      if *a != r && alt_fail.is_none() {
+        alt_fail = Some(format!("ctor-paths-differ:after the same pushes a OneOrMany that started `{}` is {} and not {}", name, show_oom(a), show_oom(&r)));
+      }
+    }
     out.push(show_oom(&r));
+  }
+  if fail.is_none() {
+    fail = alt_fail;
   }
   let mut s = out.join(" ");
   if let Some(f) = fail {
